@@ -20,7 +20,7 @@ raise or do nothing) and `raise`; the value of a function is read "when it retur
 (strip_raise).
 
 Modelled semantics of shape-only primitives (the trusted reading, as before): np.asarray(x),
-np.expand_dims(x, 1), check_series(x, enforce_univariate=False) are x;
+np.expand_dims(x, 1), check_series(x, enforce_univariate=False), x.astype(np.float64) are x;
 `_, a, b, m = _check_reg_targets(a0, b0, m0)` binds a, b, m to a0, b0, m0 (reshaped to
 (horizon, outputs), multioutput validated).
 """
@@ -172,6 +172,12 @@ def mk(t):
             return t
         if f[0] == "N" and f[1] in IDENTITY_1 and len(args) == 1 and not kw:
             return args[0]
+        # x.astype(np.float64): storage only - every number the metrics are defined on (integers
+        # below 2^53, single precision, booleans) is kept exactly.  Any other target type is not
+        # the identity (it may truncate) and stays an opaque call.
+        if f[0] == "ATTR" and f[2] == "astype" and len(args) == 1 and not kw \
+                and args[0] in (N("np.float64"), N("float")):
+            return f[1]
         if f == N("np.expand_dims") and len(args) == 2 and not kw and args[1] == K(1):
             return args[0]
         if f == N("check_series") and len(args) == 1 and d == {"enforce_univariate": FALSE}:
